@@ -240,7 +240,7 @@ func c07Exec(cs c07Case, cfg vsched.Config) (CaseResult, explore.Outcome) {
 		}
 		cl, err := ss.client()
 		if err != nil {
-			viol = append(viol, V("harness", "%v", err))
+			viol = append(viol, V("setup-handshake-fails", "setting the scenario up with well-behaved peers fails: %v", err))
 			return
 		}
 		got := &hx.Log{}
